@@ -2,7 +2,7 @@
    the Hamming 8/4 and odd-parity encoders, bit order, the data-unit / packet / header / row encoders, ground-truth
    page schedules, the multiplexing choices and the cues a schedule denotes.  Definitions only. *)
 From Coq Require Import List ZArith NArith Bool.
-From Astisub Require Import Kit.Base Kit.Str Kit.GoMap Model.TtxRow Model.Ttx.
+From Astisub Require Import Kit.Base Kit.Str Kit.GoMap Model.TtxRow Model.Ttx Model.TtxStd Model.TtxHam.
 Import ListNotations.
 Open Scope N_scope.
 
@@ -178,33 +178,47 @@ Definition hdr_c6 (p : str) : option bool :=
   match ham84_dec (nth 5 p 0) with Some cb => Some (0 <? N.land cb 8) | None => None end.
 
 (* an X/28 or M/29 payload that leaves the character set designation alone *)
+(* the first triplet of an X/28 or M/29 packet: three bytes protected by Hamming 24/18 (Model/TtxHam.v), each stored in
+   the PES payload with its first transmitted bit in the most significant position (EN 300 472) *)
+Definition triplet_of (p : str) : option N :=
+  ham2418_dec (brev8 (N.land (nth 0 p 0) 255)) (brev8 (N.land (nth 1 p 0) 255)) (brev8 (N.land (nth 2 p 0) 255)).
+(* an X/28 or M/29 payload that leaves the character set designation alone: no designation code, one other than 0 and 4,
+   no complete triplet, a triplet with an uncorrectable (double) error, or an X/28 packet of another format than 1 *)
 Definition triplet_inert (pkt : N) (p : str) : bool :=
   Nat.ltb (length p) 1 ||
   match ham84_dec (nth 0 p 0) with
   | None => true
   | Some dc => (negb (dc =? 0) && negb (dc =? 4)) || Nat.ltb (length (tl p)) 3
-               || ((pkt =? 28) && (0 <? N.land (nth 0 (tl p) 0) 15))
+               || match triplet_of (tl p) with
+                  | None => true
+                  | Some t => (pkt =? 28) && (0 <? N.land t 15)
+                  end
   end.
 
 (* the character set designation bits of a first triplet, as the reader keys its table with them *)
 Definition triplet_key (t : N) : N := N.land (N.shiftr (N.land t 16256) 10) 255.
-Definition triplet_of (p : str) : N := N.lor (N.lor (N.shiftl (nth 2 p 0) 16) (N.shiftl (nth 1 p 0) 8)) (nth 0 p 0).
-(* an X/28 (format 1) or M/29 packet of the selected magazine with designation code 0 or 4: it designates a character
-   set through the bits 7..13 of its first triplet (read as three raw bytes: no Hamming 24/18, as the code has it) *)
+(* an X/28 (format 1) or M/29 packet of the selected magazine with designation code 0 or 4 and a first triplet that
+   decodes (no error, or a single corrected one): it designates a character set through the data bits 8..14 of the triplet *)
 Definition desig_ok (mag0 : N) (u : N * str) : bool :=
   match unit_addr u with
   | Some (mag, pkt, p) =>
     (mag =? mag0) && ((pkt =? 28) || (pkt =? 29)) && negb (Nat.ltb (length p) 1)
     && match ham84_dec (nth 0 p 0) with
        | Some dc => ((dc =? 0) || (dc =? 4)) && negb (Nat.ltb (length (tl p)) 3)
-                    && negb ((pkt =? 28) && (0 <? N.land (triplet_of (tl p)) 15))
+                    && match triplet_of (tl p) with
+                       | Some t => negb ((pkt =? 28) && (0 <? N.land t 15))
+                       | None => false
+                       end
        | None => false
        end
   | None => false
   end.
-(* its packet number and first triplet *)
+(* its packet number and the 18 data bits of its first triplet *)
 Definition desig_of (u : N * str) : N * N :=
-  match unit_addr u with Some (_, pkt, p) => (pkt, triplet_of (tl p)) | None => (0, 0) end.
+  match unit_addr u with
+  | Some (_, pkt, p) => (pkt, match triplet_of (tl p) with Some t => t | None => 0 end)
+  | None => (0, 0)
+  end.
 (* one that keeps the default designation *)
 Definition neutral_unit (mag0 : N) (u : N * str) : bool := desig_ok mag0 u && (triplet_key (snd (desig_of u)) =? 0).
 
@@ -292,7 +306,15 @@ Record sched := mkSched { s_mag : N; s_pn : Z; s_insts : list inst }.
 
 (* the character table of national option cs under the default designation: the G0 set with the option's 13
    characters substituted, as the generated tables have it *)
-Definition g_table (tr cs : N) : list str := match charset_for tr cs with Ok c => c | _ => [] end.
+(* The meaning of a character cell is read off the STANDARD's tables (Model/TtxStd.v, written by hand from ETS 300 706)
+   wherever they are complete -- every Latin designation except the Turkish sub-set -- and off the library's own table
+   (Gen/TtxTables.v) for the rest (Turkish, Cyrillic, Greek: asserted only in part; reserved designations; Arabic and Hebrew:
+   not implemented).  Proofs/TtxStdProofs.v shows that the library's tables agree with every asserted standard entry. *)
+Definition g_table (tr cs : N) : list str :=
+  match std_text_table (triplet_key tr) cs with
+  | Some t => t
+  | None => match charset_for tr cs with Ok c => c | _ => [] end
+  end.
 Definition g0_table (cs : N) : list str := g_table 0 cs.
 
 (* the lines of an instance: its rows in row order, each row's runs, rows without text dropped *)
